@@ -1434,6 +1434,14 @@ class Interp:
                 names = [ast.unparse(x).split('.')[-1] for x in h.type.elts]
             else:
                 names = [ast.unparse(h.type).split('.')[-1]]
+                # `except failures:` where the classes come in through a variable (a parameter bound to a tuple of exception classes)
+                if isinstance(h.type, ast.Name) and h.type.id in env:
+                    v = env[h.type.id]
+                    objs = list(v.items) if isinstance(v, Tup) else [v]
+                    got = [getattr(o.obj, '__name__', None) for o in objs if isinstance(o, Obj) and isinstance(getattr(o, 'obj', None), type)
+                           and issubclass(o.obj, BaseException)]
+                    if got and len(got) == len(objs):
+                        names = got
             caught = {r for r in inner.raises if exc_matches(r.exc, names)}
             inner.raises -= caught
             inner.caught.append((names, caught, h))
